@@ -64,6 +64,10 @@ def as_term(r):
     c._keep.append(r.n)
     _add_axiom(c, key, v * dt == r.n)
     c._uf_apps[key] = v
+    if not hasattr(c, "_uf_defs"):
+        c._uf_defs = {}
+    c._uf_defs[v.get_id()] = r      # definition, used by diffz3
+    c._keep.append(v)
     return v
 
 
@@ -101,10 +105,11 @@ def power(b, e):
         if e.q == Fraction(1, 2):
             return sqrt(b)
         return R(q=_frac_of(float(b.q) ** float(e.q)))
-    if e.q is not None and e.q == Fraction(1, 2):
-        return sqrt(b)
-    if e.q is not None and e.q == Fraction(-1, 2):
-        return R(q=Fraction(1)) / sqrt(b)
+    if e.q is not None and 2 <= e.q.denominator <= MAX_INT_POW and abs(e.q.numerator) <= MAX_INT_POW:
+        # b^(m/k) = (b^(1/k))^m : one root application (with  root^k = b) and an integer power
+        k, mnum = e.q.denominator, e.q.numerator
+        root = sqrt(b) if k == 2 else mkpow(b, R(q=Fraction(1, k)))
+        return power(root, mnum)
     return mkpow(b, e)
 
 
